@@ -140,3 +140,9 @@ def gen_PolicyNext(rng):
                          rp.stop_after_delay(f(rng, 0, 30))]),
     )
     return dict(self=pol, elapsed_time=f(rng, 0, 40), attempts=rng.randrange(0, 6), error=err(rng), seed=seed(rng))
+
+
+def gen_ToSeconds(rng):
+    from datetime import timedelta
+    return dict(value=rng.choice([timedelta(seconds=3), timedelta(milliseconds=800), timedelta(days=1, seconds=2),
+                                  timedelta(minutes=2), timedelta(seconds=1.5), timedelta(0)]))
